@@ -183,7 +183,7 @@ INPROC_FOCUS = {"_finished_receiving", "_thread_receiver", "_terminate_execution
                 "executetask", "serve", "join", "_perform_spawn"}
 
 
-def run_inproc(case, sparse, preempt_at=(), count_lines=False, focus=None):
+def run_inproc(case, sparse, preempt_at=(), count_lines=False, focus=None, count_from_cut=False):
     from vlib import detsched as D
     from vlib import wires
 
@@ -191,6 +191,11 @@ def run_inproc(case, sparse, preempt_at=(), count_lines=False, focus=None):
     if preempt_at or count_lines:
         s.enable_line_tracing(focus or INPROC_FOCUS)
     D.install_os_proxy(s)
+    if count_from_cut:
+        # lines are numbered from the (virtual) instant at which the initiator vanishes - including what other threads
+        # whose timers expire at that same instant do before the cut itself
+        s.counting = False
+        s.count_from = case["settle"]
     pair = wires.InprocPair(s, backend_b=case["model"], transport=case["transport"])
     obs = {}
 
@@ -264,7 +269,7 @@ class Inproc(Part):
         return st.fixed_dictionaries(dict(
             model=st.sampled_from(["thread", "thread", "main_thread_only"]),
             bodies=st.lists(st.sampled_from(sorted(BODIES)), min_size=1, max_size=3),
-            settle=st.sampled_from([0.0, 0.005, 0.5]),
+            settle=st.sampled_from([0.0, 0.004, 0.005, 0.5]),
             transport=st.sampled_from(["pipe", "socket"]),
             sparse=st.fixed_dictionaries(dict(
                 pre=st.lists(st.tuples(st.one_of(st.integers(0, 30), st.integers(0, 300)), st.integers(0, 5)).map(list), max_size=30),
@@ -335,7 +340,7 @@ class InprocPairs(Part):
     iteration of the channel table, for workers whose body allocates channels while the initiator vanishes"""
 
     name = "inproc-pairs"
-    budget = {"quick": 2, "thorough": 32}
+    budget = {"quick": 16, "thorough": 64}
     min_per_shard = 1
     max_shards = 4
 
@@ -348,7 +353,9 @@ class InprocPairs(Part):
         return st.fixed_dictionaries(dict(
             model=st.sampled_from(["thread", "main_thread_only"]),
             bodies=st.sampled_from([["newchannel_loop"], ["newchannel_loop", "recv"], ["recv", "newchannel_loop"]]),
-            settle=st.sampled_from([0.003, 0.005]),
+            # 0.004 / 0.006: the initiator vanishes at the very instant the body's 2 ms sleep ends (timers that expire
+            # together make both threads runnable: the schedule decides who goes first)
+            settle=st.sampled_from([0.003, 0.004, 0.004, 0.006]),
             transport=st.just("pipe"),
         ))
 
@@ -362,7 +369,7 @@ class InprocPairs(Part):
 
         def one(i, j):
             try:
-                s1, obs1 = run_inproc(case, sp, preempt_at=(i, j), focus=PAIR_FOCUS)
+                s1, obs1 = run_inproc(case, sp, preempt_at=(i, j), focus=PAIR_FOCUS, count_from_cut=True)
             except D.Deadlock as e:
                 raise Violation("inproc.blocks-forever", f"{e.blocked}") from None
             except D.StepBudget:
@@ -372,7 +379,7 @@ class InprocPairs(Part):
         if pair is not None:
             one(pair[0], pair[1])
             return dict(nontrivial=True)
-        s0, obs0 = run_inproc(case, dict(pre=[], blk=[]), count_lines=True, focus=PAIR_FOCUS)
+        s0, obs0 = run_inproc(case, dict(pre=[], blk=[]), count_lines=True, focus=PAIR_FOCUS, count_from_cut=True)
         judge_inproc(case, s0, obs0)
         n = s0.lines
         runs, found, inc = explore.double_preemptions(one, n, max_runs=None if ctx.tier == "thorough" else 2500)
